@@ -46,9 +46,9 @@ def _key(node):
         if f is None or None in args or node.keywords:
             return None
         return f"{f}({', '.join(args)})"
-    if isinstance(node, ast.BinOp) and isinstance(node.op, ast.Div):
+    if isinstance(node, ast.BinOp) and isinstance(node.op, (ast.Div, ast.Sub)):
         a, b = _key(node.left), _key(node.right)
-        return None if a is None or b is None else f"{a} / {b}"
+        return None if a is None or b is None else f"{a} {'/' if isinstance(node.op, ast.Div) else '-'} {b}"
     return None
 
 
@@ -125,13 +125,15 @@ def _methods(src_root):
     tree = ast.parse(path.read_text())
     out = {}
     for node in ast.walk(tree):
-        if isinstance(node, ast.FunctionDef) and node.name in ("calibrate_single_ended", "calibrate_double_ended"):
+        if isinstance(node, ast.FunctionDef) and node.name in ("calibrate_single_ended", "calibrate_double_ended",
+                                                               "monte_carlo_single_ended", "monte_carlo_double_ended"):
             out[node.name] = node
     utils = ast.parse((Path(src_root) / "dtscalibration" / "dts_accessor_utils.py").read_text())
     for node in ast.walk(utils):
         if isinstance(node, ast.FunctionDef) and node.name == "get_params_from_pval_single_ended":
             out[node.name] = node
-    for need in ("calibrate_single_ended", "calibrate_double_ended", "get_params_from_pval_single_ended"):
+    for need in ("calibrate_single_ended", "calibrate_double_ended", "get_params_from_pval_single_ended",
+                 "monte_carlo_single_ended", "monte_carlo_double_ended"):
         if need not in out:
             raise Untranslatable(f"method {need} not found")
     return out
@@ -177,6 +179,7 @@ import Mathlib.Tactic.Ring
 import Mathlib.Tactic.FieldSimp
 /-! GENERATED by harness/translate.py from the current dts_accessor.py — do not edit. -/
 set_option linter.unusedSimpArgs false
+set_option linter.unusedVariables false
 namespace DtsVerif.Gen
 open DtsVerif.Propagate
 variable {K : Type} [Field K]
@@ -313,6 +316,62 @@ variable {K : Type} [Field K]
     emit(f"def varFwSFixAlpha (J : Derivs K) (vst vast : K) (c : Covs K) : List K :=\n  {_lean_list(fa_terms)}")
     emit("theorem varFwSFixAlpha_eq (J : Derivs K) (vst vast : K) (c : Covs K) : varFwSFixAlpha J vst vast c = termsSingleFixAlpha J vst vast c := by\n"
          f"  simp only [varFwSFixAlpha, termsSingleFixAlpha, List.cons.injEq, true_and, and_true]\n  repeat' apply And.intro\n  all_goals (first | rfl | ring)\n")
+    # ---------------------------------------------------------------------------------------- Monte Carlo: the same equations
+    MD = Block(M["monte_carlo_double_ended"])
+    MS = Block(M["monte_carlo_single_ended"])
+    mc_atoms = {'params["gamma_mc"]': "γ", 'np.log(params["r_st"] / params["r_ast"])': "IF", 'np.log(params["r_rst"] / params["r_rast"])': "IB",
+                'np.log(params["r_st"]) - np.log(params["r_ast"])': "IF",
+                'params["df_mc"]': "df", 'params["db_mc"]': "db", 'params["alpha_mc"]': "α", 'params["talpha_fw_mc"]': "τF",
+                'params["talpha_bw_mc"]': "τB", 'params["c_mc"]': "cc", 'params["ta_mc_arr"]': "τF", 'params["dalpha_mc"]': "dα", "params.x": "x"}
+    t = Tr(mc_atoms)
+    fw = [v for k, v in MD.all if k == 'params["tmpf_mc_set"]']
+    bw = [v for k, v in MD.all if k == 'params["tmpb_mc_set"]']
+    if len(fw) != 2 or len(bw) != 2:
+        raise Untranslatable(f"monte_carlo_double_ended assigns tmpf_mc_set {len(fw)}x and tmpb_mc_set {len(bw)}x (expected with/without splices)")
+    for k, node in enumerate(fw):
+        txt = t.tr(node)
+        with_ta = "τF" in txt
+        emit(f"def mcTmpfD{k} (γ IF df α τF c273 : K) : K := {txt}")
+        emit(f"theorem mcTmpfD{k}_eq (γ IF df α τF c273 : K) : mcTmpfD{k} γ IF df α τF c273 = tmpfD γ IF df α {'τF' if with_ta else '0'} - c273 := by\n"
+             f"  unfold mcTmpfD{k} tmpfD; ring")
+    for k, node in enumerate(bw):
+        txt = t.tr(node)
+        with_ta = "τB" in txt
+        emit(f"def mcTmpbD{k} (γ IB db α τB c273 : K) : K := {txt}")
+        emit(f"theorem mcTmpbD{k}_eq (γ IB db α τB c273 : K) : mcTmpbD{k} γ IB db α τB c273 = tmpbD γ IB db α {'τB' if with_ta else '0'} - c273 := by\n"
+             f"  unfold mcTmpbD{k} tmpbD; ring")
+    if sorted("τF" in t.tr(n) for n in fw) != [False, True] or sorted("τB" in t.tr(n) for n in bw) != [False, True]:
+        raise Untranslatable("the Monte Carlo equations no longer come as one version with and one without the splice term")
+    sg = [v for k, v in MS.all if k == 'params["tmpf_mc_set"]']
+    if len(sg) != 2:
+        raise Untranslatable(f"monte_carlo_single_ended assigns tmpf_mc_set {len(sg)}x (expected fixed-alpha / dalpha versions)")
+    kinds = []
+    for k, node in enumerate(sg):
+        txt = t.tr(node)
+        dal = "dα" in txt
+        kinds.append(dal)
+        emit(f"def mcTmpfS{k} (γ IF cc α dα x τF c273 : K) : K := {txt}")
+        emit(f"theorem mcTmpfS{k}_eq (γ IF cc α dα x τF c273 : K) : mcTmpfS{k} γ IF cc α dα x τF c273 = tmpfS γ IF cc {'(dα * x)' if dal else 'α'} τF - c273 := by\n"
+             f"  unfold mcTmpfS{k} tmpfS; ring")
+    if sorted(kinds) != [False, True]:
+        raise Untranslatable("the single-ended Monte Carlo equations are no longer one alpha and one dalpha*x version")
+    # weighted mean of the realisations
+    ix = [i for i, (k, _) in enumerate(MD.all) if k == "tmpw_var"]
+    if len(ix) != 1:
+        raise Untranslatable("monte_carlo_double_ended: assignment to tmpw_var not found exactly once")
+    tw = Tr({'out["tmpf_mc_var"]': "vf", 'out["tmpb_mc_var"]': "vb", "tmpw_var": "(mcApprox vf vb)", 'params["tmpf_mc_set"]': "tf",
+             'params["tmpb_mc_set"]': "tb", 'result["tmpf"]': "tf", 'result["tmpb"]': "tb"})
+    emit(f"def mcApprox (vf vb : K) : K := {tw.tr(MD.all[ix[0]][1])}")
+    emit("theorem mcApprox_eq (vf vb : K) : mcApprox vf vb = C06.approx vf vb := rfl")
+    qs = [v for k, v in MD.all[ix[0]:] if k == "q"]
+    if not qs:
+        raise Untranslatable("monte_carlo_double_ended: weighted realisation q not found")
+    emit(f"def mcTmpwSet (tf tb vf vb : K) : K := {tw.tr(qs[0])}")
+    emit("theorem mcTmpwSet_eq (tf tb vf vb : K) : mcTmpwSet tf tb vf vb = C06.tmpw tf tb vf vb := rfl")
+    emit(f"def mcTmpw (tf tb vf vb : K) : K := {tw.tr(MD.get('out[\"tmpw\"]'))}")
+    emit("theorem mcTmpw_eq (tf tb vf vb : K) : mcTmpw tf tb vf vb = C06.tmpw tf tb vf vb := rfl")
+    if ast.unparse(MD.get('params["tmpw_mc_set"]')) != "q":
+        raise Untranslatable("params['tmpw_mc_set'] is no longer the weighted realisation q")
     emit("end DtsVerif.Gen")
     names = dict(fw=names_fw, bw=names_bw, w=names_w, single=base_names + [k for k, _ in upd])
     return "\n".join(L) + "\n", names
